@@ -220,6 +220,8 @@ def dict_items(I, d):
 def dict_has(I, d, k):
     if d.abstract is not None:
         return d.abstract.has(I, k)
+    if d.sym_items is not None:
+        return z_or([I.eq(k, kk) for kk, _ in d.sym_items] + [z_and([I.eq(k, kk), p]) for kk, (v, p) in d.entries.items()])
     if key_concrete(k):
         e = d.entries.get(k)
         if e is None:
@@ -231,7 +233,7 @@ def dict_has(I, d, k):
 def dict_set(I, d, k, v):
     if d.abstract is not None:
         return d.abstract.set(I, k, v)
-    if not key_concrete(k):
+    if not key_concrete(k) or d.sym_items is not None:
         if d.entries and d.sym_items is None:
             raise OutOfReach("dict store with symbolic key into a dict with concrete keys")
         if d.sym_items is None:
@@ -251,6 +253,13 @@ def dict_set(I, d, k, v):
 def dict_get(I, d, k, node=None):
     if d.abstract is not None:
         return d.abstract.get(I, k, node)
+    if d.sym_items is not None:
+        for kk, v in d.sym_items:
+            if I.ctx.branch(I.eq(k, kk)):
+                return v
+        if key_concrete(k) and k in d.entries:
+            return d.entries[k][0]
+        raise PyRaise("KeyError", "key not in dict", site=node)
     if key_concrete(k):
         e = d.entries.get(k)
         if e is None:
